@@ -269,6 +269,13 @@ Ltac kill_ki I Hth :=
       let X := fresh in pose proof (v_ki _ I _ _ _ Hth) as X; discriminate X
   end.
 
+(* case analysis on the continuation only where it matters: the step returns (ret_to), or the
+   thread runs the stop callback (whose counting depends on the continuation) *)
+Ltac dk I Hth :=
+  try (first [ match goal with |- context [ret_to _ ?k] => is_var k; destruct k end
+             | match type of Hth with nth_error _ _ = Some (ACbOr _, ?k) => is_var k; destruct k end ];
+       simpl; try kill_ki I Hth).
+
 Lemma nth_thr_cases {A} (l : list A) t t0 x y z :
   nth_error l t = Some y -> nth_error (set_nth t x l) t0 = Some z ->
   (t0 = t /\ z = x) \/ (t0 <> t /\ nth_error l t0 = Some z).
@@ -425,7 +432,7 @@ Proof.
   intros I H k.
   assert (G : forall h0, handles s k <= h0 -> handles s' k <= h0); [|apply G; apply le_n].
   intros h0 E0.
-  step_split H Hth; unfold handles, inq in *; simpl; try (destruct kc; simpl; try kill_ki I Hth); destr_if;
+  step_split H Hth; unfold handles, inq in *; simpl; dk I Hth; destr_if;
     use_sum Hth; count_simp; try (eqb_cases; lia);
     side_facts I Hth; try (kill_early I Hth); try (use_mem; eqb_cases; lia).
 Qed.
@@ -443,7 +450,7 @@ Proof.
   intros I H Hth.
   assert (G : forall h0, handles s k <= h0 -> handles s' k + 1 <= h0); [|apply G; apply le_n].
   intros h0 E0.
-  step_at H Hth; unfold handles, inq in *; simpl; try (destruct kc; simpl; try kill_ki I Hth); destr_if;
+  step_at H Hth; unfold handles, inq in *; simpl; dk I Hth; destr_if;
     use_sum Hth; count_simp; try (eqb_cases; lia).
 Qed.
 
@@ -497,7 +504,7 @@ Lemma step_ps s t s' evs : Inv s -> step t s = Some (s', evs) ->
 Proof.
   intros I H k.
   pose proof (v_ps _ I k) as E0.
-  step_split' H Hth; unfold posts in *; simpl; try (destruct kc; simpl; try kill_ki I Hth); destr_if;
+  step_split' H Hth; unfold posts in *; simpl; dk I Hth; destr_if;
     use_sum Hth; unfold getop in *; simpl in *;
     eqb_cases; subst; simpl in *; rw_completed; simpl in *; try congruence; try lia.
 Qed.
@@ -526,7 +533,7 @@ Lemma step_cs s t s' evs : Inv s -> step t s = Some (s', evs) ->
 Proof.
   intros I H k Hc.
   pose proof (v_cs _ I k) as E0. pose proof (lockish_le1 s k I) as L1.
-  step_split' H Hth; unfold lockish, inq in *; simpl; try (destruct kc; simpl; try kill_ki I Hth); destr_if;
+  step_split' H Hth; unfold lockish, inq in *; simpl; dk I Hth; destr_if;
     use_sum Hth; count_simp; unfold getop in *; simpl in *;
     eqb_cases; subst; simpl in *; try (specialize (E0 Hc)); try lia;
     side_facts I Hth; try (kill_early I Hth); try (use_mem; eqb_cases; lia).
@@ -647,7 +654,7 @@ Qed.
 Lemma step_pu s t s' evs : Inv s -> step t s = Some (s', evs) -> sumf is_poppub (thr s') <= 1.
 Proof.
   intros I H. pose proof (v_pu _ I) as P.
-  step_split' H Hth; simpl; try (destruct kc; simpl; try kill_ki I Hth); destr_if; use_sum Hth; try lia.
+  step_split' H Hth; simpl; dk I Hth; destr_if; use_sum Hth; try lia.
   all: match goal with Q : popping _ = false |- _ => apply popping_zero in Q end; lia.
 Qed.
 
@@ -801,7 +808,7 @@ Lemma step_tok s t s' evs : Inv s -> step t s = Some (s', evs) ->
   tokens s' <= b2n (locked s') /\ (fixed s' = true -> tokens s' = b2n (locked s')).
 Proof.
   intros I H. pose proof (v_tok _ I) as T0. pose proof (v_tokf _ I) as F0.
-  step_split' H Hth; try (destruct kc; try kill_ki I Hth);
+  step_split' H Hth; unfold ret; dk I Hth;
     try (pose proof (compl_facts _ _ _ _ _ _ I Hth eq_refl) as (Hk & Hres & Hrel & Hcan & Hcomp));
     try (assert (Hk : i < nl s) by (eapply (v_wf_a _ I _ _ _ _ Hth); reflexivity));
     try (pose proof (v_hop _ I _ _ _ _ Hth) as Hfx);
@@ -1476,7 +1483,7 @@ Proof.
   intros I B2 H k.
   assert (G : forall h0, h0 <= handles s k -> h0 <= handles s' k + b2n (o_completed (ops s' k))); [|apply G; apply le_n].
   intros h0 E0. pose proof (v_hs1 _ I k) as H1.
-  step_split' H Hth; unfold handles, inq in *; simpl; try (destruct kc; simpl; try kill_ki I Hth); destr_if;
+  step_split' H Hth; unfold handles, inq in *; simpl; dk I Hth; destr_if;
     use_sum Hth; count_simp; unfold getop in *; simpl in *; try (eqb_cases; subst; simpl in *; rw_completed; simpl in *; lia);
     try (pose proof (B2 _ _ _ Hth eq_refl) as B; simpl in B; congruence);
     side_facts I Hth; try (kill_early I Hth); try (use_mem; eqb_cases; subst; simpl in *; rw_completed; simpl in *; lia).
@@ -1511,7 +1518,7 @@ Proof.
       rewrite H0. simpl. lia.
     + simpl in Hh. lia.
   - intros Hl Hq. pose proof (l_guard _ L) as G. unfold guards in *.
-    step_split' H Hth; simpl in *; try (destruct kc; simpl; try kill_ki I Hth); destr_if; use_sum Hth;
+    step_split' H Hth; simpl in *; dk I Hth; destr_if; use_sum Hth;
       try discriminate; try congruence; try lia;
       try (assert (Gx : sumf is_guard (thr s) >= 1) by (apply G; [assumption|first [assumption|discriminate|congruence]]); lia).
     all: try (exfalso; assert (Lk : locked s = true) by (eapply tok_locked; [exact I|exact Hth|reflexivity]); congruence).
@@ -1854,7 +1861,7 @@ Lemma step_p_sl s t s' evs : PInv s -> step t s = Some (s', evs) ->
   forall k, b2n (o_src_locked (ops s' k)) = sumf (is_srcholder k) (thr s').
 Proof.
   intros P H k. pose proof (m_inv _ (p_minv _ P)) as I. pose proof (p_sl _ P k) as E0.
-  step_split' H Hth; simpl; try (destruct kc; simpl; try kill_ki I Hth); destr_if; use_sum Hth;
+  step_split' H Hth; simpl; dk I Hth; destr_if; use_sum Hth;
     unfold getop in *; simpl in *; eqb_cases; subst; simpl in *;
     try lia; rw_field o_src_locked; simpl in *; try lia;
     try (match goal with E : context [o_src_locked ?o] |- _ => destruct (o_src_locked o) eqn:? end; simpl in *; try discriminate; lia).
@@ -1903,7 +1910,7 @@ Lemma step_p_c0 s t s' evs : PInv s -> step t s = Some (s', evs) ->
   forall k, o_cb (ops s' k) = CbPopped -> sumf (is_sacq k) (thr s') = 0.
 Proof.
   intros P H k Hc. pose proof (p_minv _ P) as M. pose proof (m_inv _ M) as I. pose proof (p_c0 _ P k) as E0.
-  step_split' H Hth; simpl; try (destruct kc; simpl; try kill_ki I Hth); destr_if; use_sum Hth;
+  step_split' H Hth; simpl; dk I Hth; destr_if; use_sum Hth;
     unfold getop in *; simpl in *; eqb_cases; subst; simpl in *;
     try (specialize (E0 Hc)); try lia; try congruence.
   all: match type of Hth with nth_error _ _ = Some ?xx => assert (S1 : sumf (is_sacq k) (thr s) = is_sacq k xx) by
@@ -2140,7 +2147,7 @@ Proof.
   split.
   - intros t0 a kc i H0 [Ho|Ho]; eapply G; eauto.
   - intros t0 a i H0. eapply G; eauto.
-Admitted.
+Qed.
 
 Lemma sync_some_mono s t s' evs k : step t s = Some (s', evs) ->
   o_sync (ops s k) <> None -> o_sync (ops s' k) <> None.
@@ -2179,7 +2186,7 @@ Lemma step_p_y2 s t s' evs : PInv s -> step t s = Some (s', evs) ->
 Proof.
   intros P H k Hs Hc Hy. pose proof (p_minv _ P) as M. pose proof (m_inv _ M) as I.
   pose proof (p_y2 _ P k) as E0.
-  step_split' H Hth; simpl; try (destruct kc; simpl; try kill_ki I Hth); destr_if; use_sum Hth;
+  step_split' H Hth; simpl; dk I Hth; destr_if; use_sum Hth;
     unfold getop in *; simpl in *; eqb_cases; subst; simpl in *; try congruence; try lia;
     try (specialize (E0 Hs Hc Hy); lia).
   all: try (match type of Hth with nth_error _ _ = Some ?xx =>
@@ -2201,7 +2208,7 @@ Proof.
      repeat match type of E with context [if ?b then _ else _] => destruct b eqn:? end;
      try discriminate E; injection E as Ea Eb; subst
    | pose proof (p_y3 _ P _ _ _ E) as E0 ]);
-  simpl; try (destruct kc; simpl; try kill_ki I Hth); destr_if; use_sum Hth;
+  simpl; dk I Hth; destr_if; use_sum Hth;
     unfold getop in *; simpl in *; eqb_cases; subst; simpl in *; try congruence;
     try (destruct E0 as [E0|E0]; [left; exact E0|right; lia]; fail);
     try (left; reflexivity).
